@@ -50,7 +50,7 @@ func genPkgContents(r *rng.R, t *SrcTree) []wire.Content {
 	}
 	n := 1 + r.Intn(6)
 	for i := 0; i < n; i++ {
-		switch r.Intn(14) {
+		switch r.Intn(15) {
 		case 0, 1, 2:
 			cs = append(cs, wire.Content{Src: rng.Pick(r, t.Files), Dst: fmt.Sprintf("/usr/bin/f%d", i), Type: rng.Pick(r, []string{"", "file"}), Info: fi(), Packager: tag()})
 		case 3:
@@ -94,6 +94,14 @@ func genPkgContents(r *rng.R, t *SrcTree) []wire.Content {
 			}
 		case 10:
 			cs = append(cs, wire.Content{Src: rng.Pick(r, t.Files), Dst: fmt.Sprintf("/usr/share/doc/app/x%d", i), Type: rng.Pick(r, []string{"doc", "licence", "license", "readme"}), Info: fi(), Packager: tag()})
+		case 13:
+			// a backslash is an ordinary character of a file name and of a symlink target on the systems these packages
+			// are installed on
+			if r.Bool() {
+				cs = append(cs, wire.Content{Src: rng.Pick(r, t.Files), Dst: fmt.Sprintf("/opt/demo/cur\\rent%d", i), Info: fi(), Packager: tag()})
+			} else {
+				cs = append(cs, wire.Content{Src: "..\\shared\\v1", Dst: fmt.Sprintf("/opt/demo/lnk%d", i), Type: "symlink", Packager: tag()})
+			}
 		default:
 			cs = append(cs, wire.Content{Src: rng.Pick(r, []string{filepath.Join(t.Root, "with space/file name.txt"), filepath.Join(t.Root, "share/empty"), filepath.Join(t.Root, "links/ln"), filepath.Join(t.Root, "links/unclean"), filepath.Join(t.Root, "tree/dotlnk")}),
 				Dst: fmt.Sprintf("/opt/sp ace/n%d", i), Info: fi(), Packager: tag()})
